@@ -20,6 +20,7 @@ import (
 	"go.uber.org/zap"
 
 	"verif/harness/lab/gen"
+	"verif/harness/lab/l2"
 	"verif/harness/lab/pki"
 	"verif/harness/lab/report"
 )
@@ -427,7 +428,7 @@ func main() {
 	defer cleanup()
 	rng := rand.New(rand.NewSource(run.Seed))
 	v := buildValues(rng)
-	logger := zap.NewNop()
+	logger := l2.DebugLogger()
 
 	// alphabet for exhaustive enumeration
 	sub1 := []op{{Kind: "start", A: 1}, {Kind: "insert", A: 1, B: 0}, {Kind: "locs", A: 0}}
